@@ -25,6 +25,7 @@ size_t g_lt_wlo[2], g_lt_whi[2];   /* both empty (0, 0) except between two injec
 int g_thrown;               /* at(): `throw std::out_of_range` rewritten to g_thrown = 1; return NULL */
 
 const void *g_solo;         /* a stand-alone ELEM object of the harness (e.g. the `value` argument): always tracked */
+const void *g_solo2;        /* the algorithm stubs' local copy of the tracked slot while its events are applied */
 #define C02_SHR >> 0      /* byte offset -> slot index (sizeof(ELEM) == 1) */
 /* q lies in one of the two known-finding waiver windows (slots [lo, hi) of the block g_lt_wbase) */
 #ifdef REPLAY
@@ -35,7 +36,7 @@ const void *g_solo;         /* a stand-alone ELEM object of the harness (e.g. th
 #define C02_WAIVED(q) (__CPROVER_same_object(q, g_lt_wbase) && \
     (((size_t)__CPROVER_POINTER_OFFSET(q) >= g_lt_wlo[0] && (size_t)__CPROVER_POINTER_OFFSET(q) < g_lt_whi[0]) || \
      ((size_t)__CPROVER_POINTER_OFFSET(q) >= g_lt_wlo[1] && (size_t)__CPROVER_POINTER_OFFSET(q) < g_lt_whi[1])))
-#define ELEM_TRACKED(q) ((const void *)(q) == g_solo || ((((size_t)__CPROVER_POINTER_OFFSET(q)) C02_SHR) == g_k && !C02_WAIVED(q)))
+#define ELEM_TRACKED(q) ((const void *)(q) == g_solo || (const void *)(q) == g_solo2 || ((((size_t)__CPROVER_POINTER_OFFSET(q)) C02_SHR) == g_k && !C02_WAIVED(q)))
 #endif
 /* 1-byte element representation: one array read / write per element operation and no divider in cbmc's array
  * indexing (with the 8-byte struct the same units run out of memory).  Values are 0..63. */
@@ -49,6 +50,14 @@ _Static_assert(sizeof(ELEM) == 1, "packed ELEM");
 #define C02_SZ sizeof(ELEM)
 /* slot index of a pointer into a block */
 #define C02_IDX(p) ((size_t)__CPROVER_POINTER_OFFSET(p) C02_SHR)
+/* start and slot count of the block that holds p */
+#ifdef REPLAY
+#define C02_BASE(p) ((ELEM *)(p))
+#define C02_NSLOTS(p) ((size_t)0)
+#else
+#define C02_BASE(p) ((ELEM *)(p) - (ptrdiff_t)C02_IDX(p))
+#define C02_NSLOTS(p) ((size_t)(__CPROVER_OBJECT_SIZE(p) C02_SHR))
+#endif
 /* p points at a slot boundary of the block `base`, at most `n` slots in */
 #define C02_IN(p, base, n) (__CPROVER_same_object((p), (base)) && __CPROVER_POINTER_OFFSET(p) >= 0 && \
     ((size_t)__CPROVER_POINTER_OFFSET(p) & (C02_SZ - 1)) == 0 && (size_t)__CPROVER_POINTER_OFFSET(p) <= (n) * C02_SZ)
@@ -134,7 +143,7 @@ static inline void c02_deallocate(struct c02_allocator *a, ELEM *p, size_t n)
 /* goto-instrument --apply-loop-contracts havocs statics: every harness starts with c02_init(k, j) */
 static inline void c02_init(size_t k, size_t j)
 {
-    g_k = k; g_j = j; g_thrown = 0; g_solo = 0;
+    g_k = k; g_j = j; g_thrown = 0; g_solo = 0; g_solo2 = 0;
     g_lt_wbase = 0; g_lt_wlo[0] = g_lt_whi[0] = g_lt_wlo[1] = g_lt_whi[1] = 0;
     g_blk_cnt = 0; g_alloc_calls = 0; g_dealloc_calls = 0; g_lex_m = 0;
 }
